@@ -394,6 +394,8 @@ def file_case(case):
             kw.update(temp_col=0, press_col=1, delimiter=case['delim'])
         tag = 'cols=%s/%s/nrows=%s/%s' % (case['cols'], punit, 'N' if n == N else ('<N' if n < N else '>N'), tclass(ts))
         evaluate(r, 'file', tag, lambda: TemperatureFile(**kw), N, P, pl, list(ts), 'valid', tname=tname, kw=kw)
+    import shutil
+    shutil.rmtree(d, ignore_errors=True)      # workers are terminated without atexit: leave nothing behind
     return r
 
 
@@ -494,7 +496,7 @@ def guillot_case(case):
             fp[name][3](pars[k])
         return o
     # signature of a missing rejection: the first structural class only (few, stable signatures)
-    T = evaluate(r, 'guillot', tag, make, N, P, pl, None, expect, reject_tag=(cls[0] if cls else 'in-bounds'),
+    T = evaluate(r, 'guillot', tag, make, N, P, pl, None, expect, reject_tag=('zero-T' if 'zero-T' in cls else (cls[0] if cls else 'in-bounds')),
                  pars=pars, gravity=grav, T4_ref=T4)
     if T is not None and real and np.all(np.isfinite(T)):
         ok = bool(np.all(np.abs(T - want) <= tol))
